@@ -368,7 +368,7 @@ def gen_media(rng, max_segments=8, plain=False, key_weight=0.35, allow_k1=False,
             tags.append("#EXT-X-DISCONTINUITY"); hit("DISCONTINUITY")
         if rng.random() < 0.2:
             tags.append("#EXT-X-PROGRAM-DATE-TIME:" + rng.choice(DATES)); hit("PROGRAM-DATE-TIME")
-        title = "" if rng.random() < 0.6 else rng.choice(["title", "a, b", " padded ", "日本", "x=y"])
+        title = "" if rng.random() < 0.6 else rng.choice(["title", "a, b", " padded ", "日本", "x=y", '"quoted"', '""', 'a"b', '"a', "'a'", "a\\"])
         tags.append("#EXTINF:%s,%s" % (dec_seconds(rng, min(target, 10**6 - 1)), title)); hit("EXTINF")
         if not plain:
             rng.shuffle(tags)
